@@ -21,6 +21,7 @@ EXIT_OK, EXIT_VIOLATION, EXIT_HARNESS = 0, 1, 2
 MACHINE_OF = {"C08": "c08", "C09": "c09", "C19": "c19", "C20": "c20"}
 MODNAME = {"c09": "m_restart", "c08": "m_history", "c20": "m_threads", "c19": "m_alloc", "c19i": "m_inputs"}
 BATCH = 40
+SET_CAP = 3000000
 
 
 def log(*a):
@@ -49,14 +50,22 @@ class Agg:
         self.bad = []
         self.digests = {}
         self.by_backend = {}
+        self.capped = False
 
     def add(self, sub, backend, r):
         for k, v in r["counters"].items():
             self.ctr[k] = self.ctr.get(k, 0) + v
         bb = self.by_backend.setdefault(backend, {"runs": 0})
         bb["runs"] += r["counters"].get("runs", 0)
-        self.nontrivial.update(r["nontrivial"])
-        self.states.update(r.get("states", ()))
+        # bounded memory in long runs: distinct-counting stops (and says so) at SET_CAP entries
+        if len(self.nontrivial) < SET_CAP:
+            self.nontrivial.update(int(x, 16) if isinstance(x, str) and len(x) == 16 else x for x in r["nontrivial"])
+        else:
+            self.capped = True
+        if len(self.states) < SET_CAP:
+            self.states.update(int(x, 16) if isinstance(x, str) and len(x) == 16 else x for x in r.get("states", ()))
+        else:
+            self.capped = True
         for v in r["violations"]:
             self.viol.append((sub, backend, v))
         for h in r["harness"]:
